@@ -354,4 +354,27 @@ func init() {
 			return jobs
 		},
 	})
+	register(&PropSpec{
+		ID: "C05", Level: "exploration",
+		Rule:        "recorder and checkers of C04 plus one GC pass (a range accepted by the store's own range check, merge on/off, optional CancelGC placed at a file boundary hook) over files holding the keys' current records, with 2..8 clients writing, deleting and reading the same keys, the flusher loop and (in a third of the cases) the hint dumper loop; after the pass a full read-back (rule: every key holds the accepted write with the highest version), then Close/NewHStore with an index subset removed and a second read-back against the last acknowledged write per key. Targeted placements: the GC goroutine is parked at each of its per-record steps for a chosen key (after the newest-check, after the copy, inside UpdateHtreePos between its tree get and tree set, after the repoint, before the source is cleared, at a file boundary) while a client sets / deletes / gets that key, x merge on/off. A read that returns an error while its position is being relocated is counted, not judged. distinct = placement (step x action x merge) and schedule signatures",
+		Assumptions: []string{"record size at most half the data-file limit", "the Go scheduler is not controlled in the stress cases"},
+		ReplayReps:  10,
+		Plan: func(tier string, seed uint64) []Job {
+			var jobs []Job
+			np, hp, nr, hr, na, ha := 8, 10, 2, 6, 1, 6
+			if tier == "thorough" {
+				np, hp, nr, hr, na, ha = 28, 60, 8, 40, 4, 40
+			}
+			for i := 0; i < np; i++ {
+				jobs = append(jobs, Job{Variant: "plain", Mode: "db.c05", Args: js(map[string]interface{}{"Histories": hp, "Level": 1 + i%2, "Targeted": i < 2 || tier == "thorough"})})
+			}
+			for i := 0; i < nr; i++ {
+				jobs = append(jobs, Job{Variant: "race", Mode: "db.c05", Args: js(map[string]interface{}{"Histories": hr, "Level": 1, "Targeted": i == 0, "NoDumper": true})})
+			}
+			for i := 0; i < na; i++ {
+				jobs = append(jobs, Job{Variant: "asan", Mode: "db.c05", Args: js(map[string]interface{}{"Histories": ha, "Level": 1, "Targeted": false})})
+			}
+			return jobs
+		},
+	})
 }
